@@ -1493,6 +1493,7 @@ def ctor_posts() -> dict:
     P['from_str_object'] = lambda o: type(o).from_str(o)
     P['ctor_components'] = lambda o: type(o)(*o)
     P['ctor_str'] = only(isang, lambda o: type(o).from_str(' '.join(repr(c) for c in o)))
+    P['pos'] = only(isvec, lambda o: +o)            # "+ on a Vector simply copies it"
     return P
 
 
@@ -2088,7 +2089,7 @@ def run(ck: Ck) -> None:
                'non-trivial = a tiny non-zero operand; parse: corpus + generated strings (three formatted/literal/exotic numbers, 0-5 fields, '
                'stray brackets, 18 kinds of Unicode whitespace and look-alikes, all bracket styles incl. wrong ones), non-trivial = the model '
                'predicts three decimal fields, distinct by text; constructor forms: 43 ways of building an object from three numbers x 4 classes x '
-               'value triples from 32 boundary/out-of-range floats and 16 ints, then 17 copy-like operations, non-trivial = an angle class and a '
+               'value triples from 32 boundary/out-of-range floats and 16 ints, then 19 copy-like operations (each mutable result taken twice: two objects), non-trivial = an angle class and a '
                'component outside [0,360) or -0.0, distinct by (class, form, values); hash: frozen values by seven routes, values around the '
                'rounding boundaries of round(x, 6), non-trivial = a non-integer component; in-place: 13 operators x 3 frozen classes x 11 kinds of '
                'argument; format specs: 38 specs x 4 classes, non-trivial = some component prints with an exponent')
